@@ -1,5 +1,6 @@
 import Dashu.Driver.Loop
 import Dashu.Model.Ratio.Spec
+import Dashu.Model.Ratio.Simplify
 /-
   Driver of group `ratio` (C04, C18): runs the mirrored model; beside every result it evaluates the
   specification in core `Rat` arithmetic (`Model/Ratio/Spec.lean`) and the representation
@@ -271,5 +272,152 @@ def dispatch : Dispatch := fun _W op args =>
       | _, _, _, _ => pure (panic "DivideByZero")
     | _ => none
   else none
+
+end Dashu.Driver.Ratio
+
+/-! ### C18: rational approximation (`s.*` ops) -/
+namespace Dashu.Driver.Ratio
+open Dashu.IO Dashu.Model Dashu.Model.Ratio Dashu.Driver
+
+def ratStr (v : Rat) : String := intToHex v.num ++ "/" ++ natToHex v.den
+
+/-- brute-force oracle for `simplest_in` on `lo < hi`: scan denominators `1, 2, …, bound`; for each
+    the candidate numerator of least magnitude strictly inside; the first hit is the simplest -/
+def bruteSimplest (lo hi : Rat) (bound : Nat) : Option Rat := Id.run do
+  if lo < 0 ∧ 0 < hi then return some 0
+  for s in [1:bound + 1] do
+    -- least |p| with lo < p/s < hi
+    let p : Int := if 0 ≤ lo then (lo * s).floor + 1 else (hi * s).ceil - 1
+    let v : Rat := (p : Rat) / (s : Rat)
+    if lo < v ∧ v < hi then return some v
+  return none
+
+/-- independent rounding of a rational to the nearest float, ties to even: bit pattern -/
+def roundToFloat (eb mb : Nat) (r : Rat) : Nat :=
+  let bias : Int := 2 ^ (eb - 1) - 1
+  let minExp : Int := 1 - bias - mb
+  let signBit : Nat := if r < 0 then 2 ^ (eb + mb) else 0
+  let a : Rat := if r < 0 then -r else r
+  if a = 0 then signBit
+  else
+    -- exponent e with 2^mb ≤ a / 2^e < 2^(mb+1), clamped below at minExp
+    let l : Int := (Nat.log2 a.num.natAbs : Int) - (Nat.log2 a.den : Int)
+    let e0 : Int := l - mb
+    let scale (e : Int) : Rat := if e ≥ 0 then a / ((2 : Rat) ^ e.toNat) else a * ((2 : Rat) ^ (-e).toNat)
+    let e1 : Int := if scale e0 < (2 : Rat) ^ mb then e0 - 1 else if scale e0 ≥ (2 : Rat) ^ (mb + 1) then e0 + 1 else e0
+    let e : Int := if e1 < minExp then minExp else e1
+    let x := scale e
+    let fl := x.floor
+    let fr := x - fl
+    let m : Int := if fr > 1 / 2 then fl + 1 else if fr < 1 / 2 then fl else (if fl % 2 = 0 then fl else fl + 1)
+    -- carry into the next binade
+    let (m, e) : Int × Int := if m = 2 ^ (mb + 1) then (2 ^ mb, e + 1) else (m, e)
+    let expField : Int := if m < 2 ^ mb then 0 else e - minExp + 1
+    if expField ≥ 2 ^ eb - 1 then signBit + (2 ^ eb - 1) * 2 ^ mb   -- infinity
+    else signBit + expField.toNat * 2 ^ mb + (m.toNat % 2 ^ mb)
+
+def parseBits (s : String) (n : Nat) : Option Nat :=
+  if s.startsWith "x:" ∧ s.length = n + 2 then parseHexNat (s.drop 2).toString else none
+
+def specNextUp (x : Rat) (limit : Nat) : Rat := Id.run do
+  let mut best : Rat := x.floor + 1
+  for q in [1:limit + 1] do
+    let c : Rat := (((x * q).floor + 1 : Int) : Rat) / (q : Rat)
+    if c < best then best := c
+  return best
+
+def specNextDown (x : Rat) (limit : Nat) : Rat := Id.run do
+  let mut best : Rat := x.ceil - 1
+  for q in [1:limit + 1] do
+    let c : Rat := (((x * q).ceil - 1 : Int) : Rat) / (q : Rat)
+    if c > best then best := c
+  return best
+
+def reducedR (p : Int × Nat × Kind) : Option Q :=
+  match p.2.2, rFromParts p.1 p.2.1 with
+  | .R, .ok q => some q
+  | _, _ => none
+
+def showOptQ (m : Except PanicKind (Option Q)) (specOk : Q → Bool) : String :=
+  match m with
+  | .ok (some r) => if specOk r then ok (showQ r) else mismatch (ok (showQ r)) "c18-spec"
+  | .ok none => mismatch (ok "fuel") "model-fuel-exhausted"
+  | .error k => mismatch (panic k.name) "c18-unexpected-panic"
+
+def dispatch18 : Dispatch := fun _W op args =>
+  match op, args with
+  | "s.in", [a, b] => do
+    let pa ← parseParts a; let pb ← parseParts b
+    if pa.2.1 = 0 ∨ pb.2.1 = 0 then some (panic "DivideByZero") else
+    let l ← reducedR pa; let u ← reducedR pb
+    let lo := min l.val u.val; let hi := max l.val u.val
+    pure (showOptQ (simplestIn l u) fun r =>
+      decide (Reduced r) &&
+      (if lo = hi then r.val == lo
+       else decide (lo < r.val ∧ r.val < hi) &&
+         (if r.den ≤ 20000 then bruteSimplest lo hi r.den == some r.val else true)))
+  | "s.simpler", [a, b] => do
+    let pa ← parseParts a; let pb ← parseParts b
+    if pa.2.1 = 0 ∨ pb.2.1 = 0 then some (panic "DivideByZero") else
+    let x ← reducedR pa; let y ← reducedR pb
+    pure (ok (boolStr (simplerSpec x y)))
+  | "s.nextup", [a, l] | "s.nextdown", [a, l] => do
+    let pa ← parseParts a
+    let lim ← (if l.startsWith "u:" then parseNat (l.drop 2).toString else none)
+    if pa.2.1 = 0 then some (panic "DivideByZero") else
+    let x ← reducedR pa
+    let up := op == "s.nextup"
+    match nextUpDown up x lim with
+    | .error k => pure (if lim = 0 ∧ k = .divideByZero then panic k.name else mismatch (panic k.name) "c18-unexpected-panic")
+    | m => pure (showOptQ m fun r =>
+        decide (Reduced r) && r.val == (if up then specNextUp x.val lim else specNextDown x.val lim))
+  | "s.nearest", [a, l] => do
+    let pa ← parseParts a
+    let lim ← (if l.startsWith "u:" then parseNat (l.drop 2).toString else none)
+    if pa.2.1 = 0 then some (panic "DivideByZero") else
+    let x ← reducedR pa
+    match nearest x lim with
+    | .error k => pure (if lim = 0 ∧ k = .divideByZero then panic k.name else mismatch (panic k.name) "c18-unexpected-panic")
+    | .ok none => pure (mismatch (ok "fuel") "model-fuel-exhausted")
+    | .ok (some (.exact v)) =>
+      pure (if x.den ≤ lim ∧ v = x then ok ("exact " ++ showQ v) else mismatch (ok ("exact " ++ showQ v)) "c18-spec")
+    | .ok (some (.inexact v neg)) =>
+      let up := specNextUp x.val lim; let dn := specNextDown x.val lim
+      let s := ok ("inexact " ++ showQ v ++ (if neg then " -" else " +"))
+      -- the closer of the two neighbours (either one on a tie), error sign = sign(result − x)
+      let good := lim < x.den && decide (Reduced v) &&
+        ((v.val == up && !neg && decide (up - x.val ≤ x.val - dn)) ||
+         (v.val == dn && neg && decide (x.val - dn ≤ up - x.val)))
+      pure (if good then s else mismatch s "c18-spec")
+  | "s.fromf32", [b] | "s.fromf64", [b] => do
+    let (eb, mb, nh) : Nat × Nat × Nat := if op == "s.fromf32" then (8, 23, 8) else (11, 52, 16)
+    let bits ← parseBits b nh
+    match simplestFromFloat simplerSpec eb mb bits with
+    | .ok (some none) =>
+      -- None exactly for NaN / infinities
+      pure (if (bits >>> mb) % 2 ^ eb = 2 ^ eb - 1 then ok "none" else mismatch (ok "none") "c18-spec")
+    | .ok (some (some r)) =>
+      let isZero := bits % 2 ^ (eb + mb) = 0
+      -- converts back to the given float (−0 and +0 both give 0/1), and nothing simpler does
+      let back := if isZero then r == Q.zero else roundToFloat eb mb r.val == bits
+      let brute := if r.den ≤ 300 ∧ !isZero then
+          (List.range r.den).all fun s0 =>
+            let s := s0 + 1
+            -- candidates of denominator s nearest to r: none of smaller denominator may round to f
+            s ≥ r.den ||
+              (let p := (r.val * s).floor
+               roundToFloat eb mb ((p : Rat) / (s : Rat)) != bits &&
+               roundToFloat eb mb (((p + 1 : Int) : Rat) / (s : Rat)) != bits)
+        else true
+      pure (if decide (Reduced r) && back && brute then ok (showQ r) else mismatch (ok (showQ r)) "c18-spec")
+    | .ok none => pure (mismatch (ok "fuel") "model-fuel-exhausted")
+    | .error k => pure (mismatch (panic k.name) "c18-unexpected-panic")
+  | _, _ => none
+
+/-- group dispatcher: C04 ops, then C18 ops -/
+def dispatchAll : Dispatch := fun W op args =>
+  match dispatch W op args with
+  | some r => some r
+  | none => dispatch18 W op args
 
 end Dashu.Driver.Ratio
